@@ -20,7 +20,7 @@ import traceback
 from fractions import Fraction
 from typing import Any, Dict, List, Optional
 
-from .c09_world import unit_factor, describe, POSCOLS, rows_token
+from .c09_world import unit_factor, describe, POSCOLS, rows_token, tag_of
 
 PLAIN = ("bool", "float", "text")
 IDENT_KINDS = ("time", "time_delta", "position", "posvel", "position_delta", "posvel_delta")
@@ -36,9 +36,10 @@ class Expected(Exception):
 
 
 class RObj:
-    def __init__(self, kind, ndim, cols, rows, other=None, ref_pos=None):
+    def __init__(self, kind, ndim, cols, rows, other=None, ref_pos=None, tag=""):
         self.kind, self.ndim, self.cols, self.rows = kind, ndim, cols, rows
         self.other, self.ref_pos = other, ref_pos
+        self.tag = tag  # `<scale>/<format>` of a time, `d:<scale>/<format>` of a time delta
 
 
 class RLeaf:
@@ -68,9 +69,9 @@ def empty_row(kind, cols):
     if kind == "sigma":
         return ["nan"] * (2 * cols)
     if kind == "time":
-        return ["nan", "nan"]
+        return ["nan"] * (2 + cols)      # jd1, jd2 and the value(s) of datetime.min in the format of the field
     if kind == "time_delta":
-        return ["n0", "n0"]
+        return ["n0"] * (2 + cols)
     return ["nan"] * POSCOLS[kind]
 
 
@@ -104,10 +105,12 @@ def key_of(tok):
 
 
 class RefWorld:
-    def __init__(self):
+    def __init__(self, conv=None):
         self.ds: Dict[int, RDS] = {}
         self.objs: List[RObj] = []
         self.diff_info: Optional[dict] = None
+        self.conv = conv   # the epoch-by-epoch scale / format conversion of the Time classes, as a table
+        self.converted = set()
 
     # ------------------------------------------------------------------ helpers
     def resolve(self, r):
@@ -157,7 +160,7 @@ class RefWorld:
                 return None
             if o.kind in IDENT_KINDS and id(o) in memo:
                 return memo[id(o)]
-            n = RObj(o.kind, o.ndim, o.cols, rowfn(o.rows), None, None)
+            n = RObj(o.kind, o.ndim, o.cols, rowfn(o.rows), None, None, o.tag)
             memo[id(o)] = n
             n.other = tr(o.other)
             n.ref_pos = tr(o.ref_pos)
@@ -179,6 +182,7 @@ class RefWorld:
         self.empty_operand = False
         self.diff_info = None
         self.or_fields_used = False
+        self.converted = set()
         try:
             return "ok", self._apply(op)
         except Expected as e:
@@ -193,7 +197,7 @@ class RefWorld:
             return "-"
         if o == "obj":
             self.objs.append(RObj(op["kind"], op["ndim"], op["cols"], [list(r) for r in op["rows"]],
-                                  self.resolve(op.get("other")), self.resolve(op.get("ref_pos"))))
+                                  self.resolve(op.get("other")), self.resolve(op.get("ref_pos")), op.get("tag", "")))
             return "-"
         d = self.ds[op["d"]]
         if o == "add":
@@ -316,10 +320,13 @@ class RefWorld:
         if isinstance(f, RColl) or f.obj.ndim != 1 or f.kind not in ("float", "text", "bool", "time", "time_delta"):
             raise Skip("sort/filter key outside the modelled fragment")
         if f.kind in ("time", "time_delta"):
+            # the key is the VALUE of the field in its own format (what `np.asarray(field)` holds), third component
             out = []
             for r in f.obj.rows:
                 if r[0] == "nan":
                     out.append("n0")  # datetime.min sorts before every real epoch
+                elif len(r) >= 3:
+                    out.append(r[2])
                 else:
                     q = Fraction(r[0][1:]) + Fraction(r[1][1:])
                     out.append("n" + (str(q.numerator) if q.denominator == 1 else f"{q.numerator}/{q.denominator}"))
@@ -361,7 +368,20 @@ class RefWorld:
             rb = b.rows if b is not None else [empty_row(kind, cols)] * m
             if factors:
                 rb = [[scale_tok(t, factors[j % len(factors)]) for j, t in enumerate(r)] for r in rb]
-            new = RObj(kind, ndim, cols, [list(r) for r in ra] + [list(r) for r in rb])
+            tag = a.tag if a is not None else b.tag
+            if a is not None and b is not None and a.tag != b.tag:
+                # every epoch of other is converted to the time scale of self and shown in the format of self
+                if a.ndim != b.ndim:
+                    raise Expected("value")
+                rb2 = []
+                for r in rb:
+                    c = self.conv.lookup(b.tag, a.tag, r) if self.conv is not None else None
+                    if c is None:
+                        raise Skip("no conversion of this epoch (empty epoch, unknown conversion, format not available)")
+                    rb2.append(list(c))
+                rb = rb2
+                self.converted.add(f"{b.tag}>{a.tag}")
+            new = RObj(kind, ndim, cols, [list(r) for r in ra] + [list(r) for r in rb], tag=tag)
             if ident:
                 pairs[key] = new
             ao = a.other if a is not None else None
@@ -408,6 +428,9 @@ class RefWorld:
                 if f.kind in PLAIN or f.kind == "sigma":
                     if a.cols != b.cols:
                         raise Expected("value")
+                if f.kind == "time_delta" and a.tag and b.tag and a.tag.split("/")[0] != b.tag.split("/")[0]:
+                    # a time delta cannot be converted to another time scale: the Time classes refuse
+                    raise Expected("other:UnknownConversionError")
                 out[name] = RLeaf(name, f.kind, pair(a, b, f.kind, a.ndim, a.cols, factors), f.unit, f.level)
             for name, f in sf.items():
                 if name not in of and not self_empty:
@@ -452,6 +475,10 @@ class RefWorld:
                 raise Skip("index field in a collection")
             cols_a = [self.key_column(d, x) for x in names]
             cols_b = [self.key_column(e, x) for x in names]
+            for x in names:
+                fa, fb = d.fields.get(x), e.fields.get(x)
+                if isinstance(fa, RLeaf) and isinstance(fb, RLeaf) and fa.obj.tag != fb.obj.tag:
+                    raise Skip("index field: times of different scale / format (values not comparable)")
             for cols in (cols_a, cols_b):
                 if any(tok == "nan" for c in cols for tok in c):
                     raise Skip("NaN in an index field")
@@ -474,7 +501,8 @@ class RefWorld:
             """the records `idx` of an object and of everything attached to it (nothing is shared with the source)"""
             if o is None:
                 return None
-            return RObj(o.kind, o.ndim, o.cols, [list(o.rows[i]) for i in idx], take(o.other, idx), take(o.ref_pos, idx))
+            return RObj(o.kind, o.ndim, o.cols, [list(o.rows[i]) for i in idx], take(o.other, idx), take(o.ref_pos, idx),
+                        o.tag)
 
         def sub_tok(x, y):
             if x == "nan" or y == "nan":
@@ -522,6 +550,9 @@ class RefWorld:
                     raise Skip("difference of arrays of different shapes")
                 if f.kind == "time" and any(t == "nan" for o in (a, b) for r in o.rows for t in r):
                     raise Skip("difference of epochs one of which is the empty epoch")
+                if f.kind in ("time", "time_delta") and (a.tag != b.tag or (
+                        f.kind == "time" and a.tag.split("/")[-1] not in ("mjd", "jd", "datetime"))):
+                    raise Skip("difference of times of different scales / formats, or in a format whose values do not subtract")
                 rows = []
                 for i, j in pairs:
                     rb = b.rows[j]
@@ -531,6 +562,12 @@ class RefWorld:
                 kind = {"float": "float", "time": "time_delta", "time_delta": "time_delta", "position": "position_delta",
                         "posvel": "posvel_delta", "position_delta": "position_delta", "posvel_delta": "posvel_delta"}[f.kind]
                 new = RObj(kind, a.ndim, a.cols, rows)
+                if f.kind == "time":
+                    # `Time - Time`: a TimeDelta of the same scale, format `timedelta` for two datetimes, else `jd` (days)
+                    sc, fm = a.tag.split("/")
+                    new.tag = f"d:{sc}/" + ("timedelta" if fm == "datetime" else "jd")
+                elif f.kind == "time_delta":
+                    new.tag = a.tag
                 if f.kind in ("position", "posvel"):
                     new.ref_pos = take(a, ia)
                 elif f.kind in ("position_delta", "posvel_delta"):
@@ -557,8 +594,10 @@ def obj_struct(o, seen, ref):
     if ref:
         kind, ndim, cols, rows = o.kind, o.ndim, o.cols, o.rows
         oth, rp = o.other, o.ref_pos
+        tag = o.tag
     else:
-        kind, ndim, cols, rows = describe(o)
+        kind, ndim, cols, rows = describe(o, True)
+        tag = tag_of(o)
         oth = getattr(o, "other", None) if kind in ("position", "posvel") else None
         rp = getattr(o, "ref_pos", None) if kind in ("position_delta", "posvel_delta") else None
     ident = kind in IDENT_KINDS
@@ -570,7 +609,7 @@ def obj_struct(o, seen, ref):
         k = len(seen) - 1
     else:
         k = None
-    return {"id": k, "kind": kind, "ndim": ndim, "cols": cols, "rows": [list(r) for r in rows],
+    return {"id": k, "kind": kind, "ndim": ndim, "cols": cols, "tag": tag, "rows": [list(r) for r in rows],
             "other": obj_struct(oth, seen, ref) if oth is not None else None,
             "ref_pos": obj_struct(rp, seen, ref) if rp is not None else None}
 
@@ -616,8 +655,8 @@ def diff_obj(a, b, where):
         return ("sharing", where, f"real {a.get('same_as', a.get('id'))} reference {b.get('same_as', b.get('id'))}")
     if "same_as" in a:
         return None
-    if a["kind"] != b["kind"] or a["ndim"] != b["ndim"] or a["cols"] != b["cols"]:
-        return ("shape", where, f"{a['kind']}/{a['ndim']}/{a['cols']} vs {b['kind']}/{b['ndim']}/{b['cols']}")
+    if a["kind"] != b["kind"] or a["ndim"] != b["ndim"] or a["cols"] != b["cols"] or a["tag"] != b["tag"]:
+        return ("shape", where, f"{a['kind']}/{a['ndim']}/{a['cols']}/{a['tag']} vs {b['kind']}/{b['ndim']}/{b['cols']}/{b['tag']}")
     if len(a["rows"]) != len(b["rows"]):
         return ("rows", where, f"{b['kind']}: {len(a['rows'])} rows, expected {len(b['rows'])}")
     if a["rows"] != b["rows"]:
